@@ -615,28 +615,56 @@ def rule_lookahead_putback(ctx: Ctx, rule: str) -> None:
     ctx.text(rule, 'look-ahead / put-back pairing in the parser: a `while c == K: c = next(i)` scan reads one character too many, so its '
                    'normal exit must be followed by i.rewind(1)')
     repo = ctx.repo
+    from ..symeval import SymEval, Obj, Opaque, focus
+    from .seqrules import star_table
     n = 0
+
+    def scan_loop(w: ast.AST) -> bool:
+        if not isinstance(w, ast.While) or isinstance(w.test, ast.Constant):
+            return False
+        def reads(e: ast.AST) -> bool:
+            return any(isinstance(c, ast.Call) and isinstance(c.func, ast.Name) and c.func.id == 'next' and len(c.args) == 1 for c in ast.walk(e))
+        if reads(w.test):
+            return True
+        tested = {x.id for x in ast.walk(w.test) if isinstance(x, ast.Name)}
+        for st in ast.walk(ast.Module(body=list(w.body), type_ignores=[])):
+            if isinstance(st, (ast.Assign, ast.NamedExpr)) and reads(st.value):
+                tg = st.targets if isinstance(st, ast.Assign) else [st.target]
+                if any(isinstance(t, ast.Name) and t.id in tested for t in tg):
+                    return True
+        return False
     for qn in ('WcParse.consume_path_sep', 'WcParse._handle_star'):
         fi = repo.func(WP, qn)
-        par = enclosing_map(fi.node)
-        for w in [x for x in walk_no_nested(fi.node) if isinstance(x, ast.While)]:
-            # a scan loop: the variable tested by the loop is re-read from the iterator in the body (any names)
-            adv = [s for s in w.body if isinstance(s, ast.Assign) and len(s.targets) == 1 and isinstance(s.targets[0], ast.Name) and
-                   isinstance(s.value, ast.Call) and norm_src(s.value.func) == 'next' and len(s.value.args) == 1]
-            if not adv or isinstance(w.test, ast.Constant) or adv[0].targets[0].id not in {x.id for x in ast.walk(w.test) if isinstance(x, ast.Name)}:
-                continue
-            it = norm_src(adv[0].value.args[0])
+        if qn.endswith('_handle_star'):
+            paths = star_table(repo)
+        else:
+            pars = [p for p in fi.params() if p != 'self']
+            ev = SymEval(repo, inline=False, explore_handlers=True, loop_mode='skip', max_paths=20000)
+            paths = ev.tabulate(fi, {pars[0]: Opaque('i')}, Obj((WP, 'WcParse'), {}))
+        verdict: dict[int, list] = {}
+        loops: dict[int, ast.AST] = {}
+        for p in paths:
+            focus(p)
+            evs = p.events
+            for k, e in enumerate(evs):
+                if e[0] != 'loop' or not scan_loop(e[1]):
+                    continue
+                loops[id(e[1])] = e[1]
+                rest = evs[k + 1:]
+                if any(x[0] == 'except' for x in rest):
+                    continue  # the run was cut short by the end of the pattern: nothing was read too far
+                nxt = next((x for x in rest if x[0] in ('call', 'loop', 'store', 'yield')), None)
+                ok = nxt is not None and nxt[0] == 'call' and nxt[1].endswith('.rewind') and nxt[2] == [1] and not nxt[3]
+                if p.raised and nxt is None:
+                    continue
+                verdict.setdefault(id(e[1]), []).append(ok if ok else (f'{nxt[1]}({nxt[2]})' if nxt is not None and nxt[0] == 'call' else 'nothing is put back'))
+        for lid, w in sorted(loops.items(), key=lambda kv: kv[1].lineno):
             n += 1
-            blk = par.get(id(w))
-            body = None
-            for fld in ('body', 'orelse', 'finalbody'):
-                seq = getattr(blk, fld, None)
-                if isinstance(seq, list) and w in seq:
-                    body = seq
-            nxt = body[body.index(w) + 1] if body is not None and body.index(w) + 1 < len(body) else None
-            ok = nxt is not None and isinstance(nxt, ast.Expr) and norm_src(nxt.value) == f'{it}.rewind(1)'
+            res = verdict.get(lid, [])
+            bad = [r for r in res if r is not True]
             kind = ''.join(sorted({repr(c.value) for c in ast.walk(w.test) if isinstance(c, ast.Constant)}))
-            ctx.ob(rule, f'{WP}:{qn}/putback[{kind}]', ok, repo.loc(WP, w), 'i.rewind(1) right after the scan loop', norm_src(nxt)[:50] if nxt is not None else 'nothing follows',
+            ctx.ob(rule, f'{WP}:{qn}/putback[{kind}]', bool(res) and not bad, repo.loc(WP, w), 'on the normal exit of the scan loop the next effect is <iterator>.rewind(1)',
+                   f'{len(res)} rows agree' if res and not bad else (str(bad[0])[:80] if bad else 'the exit of the loop is never reached in the table'),
                    witness="globmatch('a/b', 'a//b') / fnmatch('ab', '**b'): the character after the run would be swallowed")
     ctx.floor(rule, 'scan loops', n, 3)
 
@@ -681,27 +709,33 @@ def rule_inverse_cleanup(ctx: Ctx, rule: str) -> None:
         nested = _dec(p, lambda k: k == 'nested')
         pathname = _dec(p, lambda k: k == 'self.pathname')
         isph = _dec(p, lambda k: k.startswith('isinstance(') and 'InvPlaceholder' in k and f'{_tag(base)}[{_tag(idx)}]' in k)
-        names = [e[1] for e in p.events if e[0] == 'call']
-        apps = [e for e in p.events if e[0] == 'call' and e[1].endswith('.append')]
-        joins = [i for i, e in enumerate(p.events) if e[0] == 'call' and e[1] == "''.join"]
         if len(sets) != 1 or isph is not True:
             bad_test.append(str(p.decisions))
-        if nested is True:
-            if apps:
-                bad_end.append(f'nested: appends {apps[0][2]}')
-        elif nested is False:
-            want = Opaque('self.path_eop') if pathname else eop
-            if len(apps) != 1 or apps[0][2] != [want] or not joins or p.events.index(apps[0]) > joins[0] or \
-                    not apps[0][1].startswith(f'{_tag(base)}[') or pathname is None:
-                bad_end.append(f'pathname={pathname}: appends {[a[2] for a in apps]}')
-        else:
-            bad_end.append('not decided on nested')
-        parts = val.parts if isinstance(val, Tok) else ()
-        want_close = f'format({close!r}; str({_tag(base)}[{_tag(idx)}]))'
-        if len(parts) != 2 or parts[1] != want_close or "''.join(" not in str(parts[0]):
-            bad_close.append(repr(val)[:120])
+        # the value written back, as a value: join(rest) [+ end assertion] [.replace(marker)] + close template
+        from ..symeval import _parts
+        capture = _dec(p, lambda k: k == 'self.capture')
+        rest = Opaque(f"''.join({_tag(base)}[({_tag(idx)}+1):])")
+        closefmt = Tok((f'format({close!r}; str({_tag(base)}[{_tag(idx)}]))',))
+
+        def expected(with_end: bool, pn: Any, cap: Any) -> str:
+            inner: Any = rest
+            if with_end:
+                inner = Tok(_parts(rest) + _parts(Opaque('self.path_eop') if pn else eop))
+            if cap:
+                inner = Opaque(f"{_tag(inner)}.replace('(?#)', '?:')")
+            return _tag(Tok(_parts(inner) + _parts(closefmt)))
+        got = _tag(val)
+        if nested is None or capture is None or (nested is False and pathname is None):
+            bad_end.append(f'the written value is not decided by nested / pathname / capture: {sorted(p.decisions)}')
+        elif got != expected(not nested, pathname, capture):
+            # which clause fails?
+            if got == expected(nested, pathname, capture) or got == expected(not nested, not pathname, capture) or \
+                    not any(got == expected(w, pn, capture) for w in (True, False) for pn in (True, False)):
+                bad_end.append(f'nested={nested} pathname={pathname}: writes {got[:110]}')
+            if not got.endswith(_tag(closefmt)) or not any(got == expected(w, pn, capture) for w in (True, False) for pn in (True, False)):
+                bad_close.append(got[:140])
     ctx.ob(rule, f'{WP}:WcParse.clean_up_inverse/end-assertion', not bad_end, site,
-           'not nested: rest.append(_EOP if not self.pathname else self.path_eop) before the join; nested: nothing appended',
+           'not nested: the joined rest is followed by _EOP (name mode) / self.path_eop (path mode); nested: by nothing',
            'as expected' if not bad_end else '; '.join(bad_end[:2]),
            witness="globmatch('ab/', '!(a)', EXTGLOB): in path mode the negation must also stop at a separator")
     quiet = [p for p in paths if _dec(p, lambda k: k == 'self.inv_ext') is False]
